@@ -92,6 +92,18 @@ def display_symbols(prog, adt_path):
             elif path_endswith(d, "Formatter::<'a>::write_str") or (d.endswith('::write_str')):
                 if len(args) > 1 and is_const(args[1]):
                     lits.append(args[1][1])
+            elif d.endswith('::write_char') and len(args) > 1:
+                # `f.write_char('+')` (Formatter's own method or fmt::Write): a constant character is literal text
+                if is_const(args[1]) and isinstance(args[1][1], str):
+                    lits.append(args[1][1])
+                else:
+                    dyn = True
+            elif d.endswith("Formatter::<'a>::pad") or (d.endswith('::pad') and 'Formatter' in d):
+                # `f.pad(s)`: what `<str as Display>::fmt` does
+                if len(args) > 1 and is_const(args[1]):
+                    lits.append(args[1][1])
+                else:
+                    dyn = True
             elif 'Argument' in d and 'new_display' in d or 'new_debug' in d:
                 dyn = True
             elif d.endswith('::fmt') and not d.startswith('std::fmt::Arguments'):
